@@ -121,6 +121,9 @@ def _process_string_field_value(path: List[str], value: Any, current_type: Any, 
                 raise e
         return value
     elif token == 'O':
+        if value is None:
+            # Nothing to convert: keep null as is (nested tokens expect a list, a dict or a string)
+            return None
         return _process_string_field_value(
             path=path,
             value=value,
